@@ -106,6 +106,11 @@ bool g_excl_f4 = false, g_excl_f5 = false, g_excl_nl = false;
 quill::ManualBackendWorker* g_mbw = nullptr;
 quill::detail::BackendWorker* g_bw = nullptr;
 quill::Logger* g_lg[2] = {nullptr, nullptr};
+quill::Logger* g_lg_bt = nullptr; // same sinks, backtrace initialised and never flushed: its statements are stored, not written
+// a named-argument statement at backtrace level: the backend formats it, fills the named args of the (reused) transit
+// event slot and moves a COPY into the backtrace storage -- nothing may be left behind in the slot
+constexpr quill::MacroMetadata kBtNamedMd{"named_bt.cpp:7", "bt_fn", "bt {host} port {port} try {attempt}", nullptr,
+                                          quill::LogLevel::Backtrace, quill::MacroMetadata::Event::Log};
 char const* const kLoggerName[2] = {"named_a", "lgB"};
 std::shared_ptr<quill::Sink> g_rec_sink, g_json_sink;
 std::string g_dir, g_json_path;
@@ -1155,6 +1160,9 @@ void harness_init(Params const& p)
       quill::ClockSourceType::User, &g_clock);
     g_lg[0]->set_log_level(quill::LogLevel::TraceL3);
     g_lg[1]->set_log_level(quill::LogLevel::TraceL3);
+    g_lg_bt = quill::Frontend::create_or_get_logger("named_bt", {g_rec_sink, g_json_sink}, quill::PatternFormatterOptions{},
+                                                    quill::ClockSourceType::User, &g_clock);
+    g_lg_bt->init_backtrace(2, quill::LogLevel::None); // never flushed automatically
     g_json_fd = open(g_json_path.c_str(), O_RDWR);
     if (g_json_fd < 0) g_init_error = "cannot open " + g_json_path + " for reading back";
   }
@@ -1192,6 +1200,15 @@ void run_case(Choices& c, Report& r)
 
   for (unsigned k = 0; k < nS && harness_error.empty(); ++k)
   {
+    if (c.pick(6) == 5)
+    {
+      // disturber: produces no output, but travels through a transit event slot that a later statement reuses
+      g_clock.t = 1000000000000000000ull + static_cast<uint64_t>(c.range(0, 2999999999999999999ll));
+      g_lg_bt->log_statement<false, false>(quill::LogLevel::None, &kBtNamedMd, std::string{"db-1"}, 5432, 3u);
+      r.label("named_backtrace_statement_between");
+      if (k < 10) r.line("   (named-argument LOG_BACKTRACE through logger named_bt: stored, never written)");
+      ++pending;
+    }
     size_t kind = c.weighted({12, 1, 1}); // 0 generated template, 1 LOGJ_ call site, 2 rewrite a slot in place first
     Expect e;
     e.logger = static_cast<int>(c.pick(2));
